@@ -8,21 +8,28 @@
 //! what runs when the script says accepting / failing.
 //! Programs: messages (9 kinds) and queries (8 kinds) sent from top level (`App::execute_multi`,
 //! `App::wrap()` querier), or by a contract written for the chain's custom types, or by the same contract
-//! written against `Empty` and lifted with `ContractWrapper::new_with_empty` -- inline queries first, then
-//! sub-messages with or without reply -- first in the transaction or after an earlier write.
+//! written against `Empty` and lifted with `ContractWrapper::new_with_empty` / `with_*_empty` -- from ANY of its
+//! entry points: instantiate (`instantiate_contract`), execute, migrate (`migrate_contract`, admin = a user
+//! distinct from the contract), sudo (`wasm_sudo`) and reply -- inline queries first, then sub-messages with
+//! or without reply -- first in the transaction or after an earlier write.  The sender a module must record
+//! is always the EMITTING contract's address (predicted on a twin App for a contract that is being
+//! instantiated).  Wasm messages WITH FUNDS: a user / a contract executes or instantiates a real callee with
+//! funds from {[], [5 x], [0 x], [0 x; 0 y], [0 x; 3 y]}; the bank slot (recording bank scripted ok / err, or the
+//! crate's BankKeeper) must be asked exactly once (Send: payer -> callee, coins verbatim) before the callee
+//! runs iff the vector is non-empty; the callee records out of band when it runs.
 //! Observed: the module log, Ok/Err/Panic of the call, what the caller of each probe was shown, what state
 //! survived.  Judged by Chk17.c17 (oracle = spec routing; model = the regenerated routing tables).
 #![allow(deprecated)]
 use common::*;
 use cosmwasm_std::{
     coin, to_json_binary, to_json_vec, Addr, AnyMsg, Api, BankMsg, BankQuery, Binary, BlockInfo, ContractResult, CosmosMsg, CustomMsg,
-    CustomQuery, Deps, DepsMut, DistributionMsg, DistributionQuery, Empty, Env, GovMsg, GrpcQuery, IbcMsg, IbcQuery, MessageInfo, Order,
+    Coin, CustomQuery, Deps, DepsMut, DistributionMsg, DistributionQuery, Empty, Env, GovMsg, GrpcQuery, IbcMsg, IbcQuery, MessageInfo, Order,
     Querier, QueryRequest, Record, Reply, ReplyOn, Response, StakingMsg, StakingQuery, StdError, StdResult, Storage, SubMsg, SubMsgResult,
     SystemResult, Timestamp, VoteOption, WasmMsg, WasmQuery,
 };
 use cw_multi_test::error::{bail, AnyResult};
 use cw_multi_test::{
-    AcceptingModule, App, AppBuilder, AppResponse, Bank, BankSudo, Contract, ContractData, ContractWrapper, CosmosRouter, Distribution,
+    AcceptingModule, App, AppBuilder, AppResponse, Bank, BankKeeper, BankSudo, Contract, ContractData, ContractWrapper, CosmosRouter, Distribution,
     Executor, FailingModule, Gov, GovAcceptingModule, GovFailingModule, Ibc, IbcAcceptingModule, IbcFailingModule, Module, Stargate,
     StargateAccepting, StargateFailing, Staking, StakingSudo, Wasm, WasmKeeper, WasmSudo,
 };
@@ -42,11 +49,18 @@ pub const QKINDS: [&str; 8] = ["Wasm", "Bank", "Custom", "Staking", "Distributio
 pub const SLOTS: [&str; 8] = ["wasm", "bank", "custom", "staking", "distribution", "ibc", "gov", "stargate"];
 const MSLOT: [usize; 9] = [0, 1, 2, 3, 4, 5, 6, 7, 7];
 const QSLOT: [usize; 8] = [0, 1, 2, 3, 4, 5, 7, 7];
-const BEH: [&str; 4] = ["Accepting", "Failing", "RecOk", "RecErr"];
+const BEH: [&str; 5] = ["Accepting", "Failing", "RecOk", "RecErr", "Keeper"];
+const ENTRIES: [&str; 5] = ["Execute", "Instantiate", "Migrate", "Sudo", "Reply"];
+const FCLASS: [&str; 5] = ["FEmpty", "FPos", "FZero1", "FZero2", "FZeroPos"];
 const ACCEPTING: u8 = 0;
 const FAILING: u8 = 1;
 const REC_OK: u8 = 2;
 const REC_ERR: u8 = 3;
+/// bank slot only: the crate's own BankKeeper
+const KEEPER: u8 = 4;
+const CALLEE_SLOT: u64 = 8;
+const RAN_PREFIX: &[u8] = b"c17ran/";
+const TRIGGER_ID: u64 = 9999;
 const PROBE_ADDR: &str = "c17-probe-target";
 const MARKER_PREFIX: &[u8] = b"c17m/";
 
@@ -92,6 +106,17 @@ impl Ctl {
     fn hit(&self, slot: usize, sender: Option<&Addr>, payload: u64, block: &BlockInfo) {
         self.log.borrow_mut().push(Entry { slot: slot as u64, sender: sender.map(|a| digest(a.as_str())).unwrap_or(0), payload, height: block.height });
     }
+}
+thread_local! {
+    /// the control block of the App under test: a funded callee records its run here, out of band
+    static CUR: RefCell<Option<Rc<Ctl>>> = const { RefCell::new(None) };
+}
+fn callee_ran(sender: &Addr, payload: u64, height: u64) {
+    CUR.with(|c| {
+        if let Some(ctl) = c.borrow().as_ref() {
+            ctl.log.borrow_mut().push(Entry { slot: CALLEE_SLOT, sender: digest(sender.as_str()), payload, height });
+        }
+    });
 }
 fn marker_key(slot: usize, payload: u64) -> Vec<u8> {
     let mut k = MARKER_PREFIX.to_vec();
@@ -184,7 +209,58 @@ impl<E: Serialize, Q: Serialize, S> Module for Rec<E, Q, S> {
         bail!("sudo is not part of C17")
     }
 }
-impl Bank for Rec<BankMsg, BankQuery, BankSudo> {}
+/// bank slot: the recording bank, or (script = Keeper) the crate's own BankKeeper; arguments passed through untouched
+pub struct BankSw {
+    ctl: Rc<Ctl>,
+    rec: Rec<BankMsg, BankQuery, BankSudo>,
+    pub keeper: BankKeeper,
+}
+impl Module for BankSw {
+    type ExecT = BankMsg;
+    type QueryT = BankQuery;
+    type SudoT = BankSudo;
+    fn execute<ExecC, QueryC>(
+        &self,
+        api: &dyn Api,
+        storage: &mut dyn Storage,
+        router: &dyn CosmosRouter<ExecC = ExecC, QueryC = QueryC>,
+        block: &BlockInfo,
+        sender: Addr,
+        msg: BankMsg,
+    ) -> AnyResult<AppResponse>
+    where
+        ExecC: CustomMsg + DeserializeOwned + 'static,
+        QueryC: CustomQuery + DeserializeOwned + 'static,
+    {
+        if self.ctl.beh(1) == KEEPER {
+            self.keeper.execute(api, storage, router, block, sender, msg)
+        } else {
+            self.rec.execute(api, storage, router, block, sender, msg)
+        }
+    }
+    fn query(&self, api: &dyn Api, storage: &dyn Storage, querier: &dyn Querier, block: &BlockInfo, request: BankQuery) -> AnyResult<Binary> {
+        if self.ctl.beh(1) == KEEPER {
+            self.keeper.query(api, storage, querier, block, request)
+        } else {
+            self.rec.query(api, storage, querier, block, request)
+        }
+    }
+    fn sudo<ExecC, QueryC>(
+        &self,
+        api: &dyn Api,
+        storage: &mut dyn Storage,
+        router: &dyn CosmosRouter<ExecC = ExecC, QueryC = QueryC>,
+        block: &BlockInfo,
+        msg: BankSudo,
+    ) -> AnyResult<AppResponse>
+    where
+        ExecC: CustomMsg + DeserializeOwned + 'static,
+        QueryC: CustomQuery + DeserializeOwned + 'static,
+    {
+        self.keeper.sudo(api, storage, router, block, msg)
+    }
+}
+impl Bank for BankSw {}
 impl Staking for Rec<StakingMsg, StakingQuery, StakingSudo> {}
 impl Distribution for Rec<DistributionMsg, Empty, Empty> {}
 
@@ -370,7 +446,7 @@ impl Wasm<CMsg, CQuery> for RecWasm {
 }
 
 type TheApp = App<
-    Rec<BankMsg, BankQuery, BankSudo>,
+    BankSw,
     cosmwasm_std::testing::MockApi,
     cosmwasm_std::testing::MockStorage,
     CustomSw,
@@ -385,7 +461,7 @@ type TheApp = App<
 fn build_app(ctl: &Rc<Ctl>, height: u64) -> TheApp {
     AppBuilder::new_custom()
         .with_block(BlockInfo { height, time: Timestamp::from_seconds(1_700_000_000 + height), chain_id: "c17-chain".into() })
-        .with_bank(Rec::<BankMsg, BankQuery, BankSudo>::new(1, ctl))
+        .with_bank(BankSw { ctl: ctl.clone(), rec: Rec::<BankMsg, BankQuery, BankSudo>::new(1, ctl), keeper: BankKeeper::new() })
         .with_custom(Sw { slot: 2, ctl: ctl.clone(), acc: AcceptingModule::new(), fail: FailingModule::new(), rec: Rec::<CMsg, CQuery, Empty>::new(2, ctl) })
         .with_wasm(RecWasm { ctl: ctl.clone(), inner: WasmKeeper::new() })
         .with_staking(Rec::<StakingMsg, StakingQuery, StakingSudo>::new(3, ctl))
@@ -526,21 +602,67 @@ fn make_query<Q: CustQ>(kind: usize, n: u64) -> (QueryRequest<Q>, u64) {
 }
 
 // ---------------------------------------------------------------------------------------------
-// the emitting contract (generic in the message / query type it is written against)
+// funds
 // ---------------------------------------------------------------------------------------------
+fn funds_of(fclass: u8) -> Vec<Coin> {
+    match fclass {
+        0 => vec![],
+        1 => vec![coin(5, "c17x")],
+        2 => vec![coin(0, "c17x")],
+        3 => vec![coin(0, "c17x"), coin(0, "c17y")],
+        _ => vec![coin(0, "c17x"), coin(3, "c17y")],
+    }
+}
+/// digest the configured bank module must record: the Send from the payer to the callee, coins verbatim
+fn send_digest(callee: &str, fclass: u8) -> u64 {
+    jdigest(&BankMsg::Send { to_address: callee.to_string(), amount: funds_of(fclass) })
+}
+/// digest the callee records when it runs: (nonce, info.funds)
+fn callee_digest(n: u64, funds: &[Coin]) -> u64 {
+    jdigest(&(n, funds))
+}
+
+// ---------------------------------------------------------------------------------------------
+// the emitting contract (generic in the message / query type it is written against); the same code is
+// the callee of funded wasm messages
+// ---------------------------------------------------------------------------------------------
+#[derive(Serialize, Deserialize, Clone, Debug, PartialEq)]
+pub struct Funded {
+    /// WasmMsg::Instantiate (true) / WasmMsg::Execute (false)
+    pub inst: bool,
+    /// index into FCLASS
+    pub fclass: u8,
+}
 #[derive(Serialize, Deserialize, Clone, Debug, PartialEq)]
 pub struct Probe {
     pub is_msg: bool,
-    /// index into MKINDS / QKINDS
+    /// index into MKINDS / QKINDS (ignored for a funded wasm message)
     pub kind: usize,
     pub n: u64,
     pub catch: bool,
+    #[serde(default)]
+    pub funded: Option<Funded>,
 }
+/// a probe as handed to the contract: the callee of a funded message resolved
 #[derive(Serialize, Deserialize, Clone, Debug, PartialEq)]
+pub struct Step {
+    pub idx: u64,
+    pub probe: Probe,
+    pub callee: String,
+    pub code_id: u64,
+}
+#[derive(Serialize, Deserialize, Clone, Debug, PartialEq, Default)]
 pub struct Prog {
+    #[serde(default)]
     pub pre: bool,
-    /// (index of the probe in the program, probe)
-    pub probes: Vec<(u64, Probe)>,
+    #[serde(default)]
+    pub steps: Vec<Step>,
+    /// Some(n): this call is the CALLEE of a funded message with nonce n: record the run
+    #[serde(default)]
+    pub ran: Option<u64>,
+    /// run the program from the reply entry point: execute stores it and triggers a reply
+    #[serde(default)]
+    pub via_reply: bool,
 }
 
 fn seen_key(i: u64) -> Vec<u8> {
@@ -554,35 +676,89 @@ fn seen_val(r: &Result<Option<u64>, ()>) -> Vec<u8> {
     }
 }
 
-fn emitter_instantiate<C: Cust, Q: CustQ>(_d: DepsMut<Q>, _e: Env, _i: MessageInfo, _m: Empty) -> StdResult<Response<C>> {
-    Ok(Response::new())
+fn make_funded<C: Cust>(st: &Step, f: &Funded) -> CosmosMsg<C> {
+    let msg = to_json_binary(&Prog { ran: Some(st.probe.n), ..Prog::default() }).unwrap();
+    let funds = funds_of(f.fclass);
+    if f.inst {
+        CosmosMsg::Wasm(WasmMsg::Instantiate { admin: None, code_id: st.code_id, msg, funds, label: format!("callee-{}", st.probe.n) })
+    } else {
+        CosmosMsg::Wasm(WasmMsg::Execute { contract_addr: st.callee.clone(), msg, funds })
+    }
 }
-fn emitter_execute<C: Cust, Q: CustQ>(deps: DepsMut<Q>, _e: Env, _i: MessageInfo, prog: Prog) -> StdResult<Response<C>> {
+fn step_msg<C: Cust>(st: &Step) -> CosmosMsg<C> {
+    match &st.probe.funded {
+        Some(f) => make_funded::<C>(st, f),
+        None => make_msg::<C>(st.probe.kind, st.probe.n).0,
+    }
+}
+
+/// the body shared by all entry points: earlier write, inline queries in program order, then the sub-messages
+fn run_prog<C: Cust, Q: CustQ>(deps: DepsMut<Q>, prog: &Prog) -> StdResult<Response<C>> {
     if prog.pre {
         deps.storage.set(b"pre", b"1");
     }
-    // inline queries, in program order
-    for (i, p) in prog.probes.iter().filter(|(_, p)| !p.is_msg) {
-        let (req, _) = make_query::<Q>(p.kind, p.n);
+    for st in prog.steps.iter().filter(|s| !s.probe.is_msg) {
+        let (req, _) = make_query::<Q>(st.probe.kind, st.probe.n);
         let raw = to_json_vec(&req)?;
         let r: Result<Option<u64>, ()> = match deps.querier.raw_query(&raw) {
             SystemResult::Ok(ContractResult::Ok(bin)) => Ok(serde_json::from_slice::<u64>(bin.as_slice()).ok()),
             _ => Err(()),
         };
-        match (&r, p.catch) {
+        match (&r, st.probe.catch) {
             (Err(()), false) => return Err(StdError::generic_err("c17: query failed")),
-            _ => deps.storage.set(&seen_key(*i), &seen_val(&r)),
+            _ => deps.storage.set(&seen_key(st.idx), &seen_val(&r)),
         }
     }
-    // then the sub-messages
     let mut resp = Response::new();
-    for (i, p) in prog.probes.iter().filter(|(_, p)| p.is_msg) {
-        let (msg, _) = make_msg::<C>(p.kind, p.n);
-        resp = resp.add_submessage(SubMsg { id: *i, payload: Binary::default(), msg, gas_limit: None, reply_on: if p.catch { ReplyOn::Always } else { ReplyOn::Never } });
+    for st in prog.steps.iter().filter(|s| s.probe.is_msg) {
+        resp = resp.add_submessage(SubMsg {
+            id: st.idx,
+            payload: Binary::default(),
+            msg: step_msg::<C>(st),
+            gas_limit: None,
+            reply_on: if st.probe.catch { ReplyOn::Always } else { ReplyOn::Never },
+        });
     }
     Ok(resp)
 }
+fn record_callee(storage: &mut dyn Storage, env: &Env, info: &MessageInfo, prog: &Prog) {
+    if let Some(n) = prog.ran {
+        let d = callee_digest(n, &info.funds);
+        callee_ran(&info.sender, d, env.block.height);
+        let mut k = RAN_PREFIX.to_vec();
+        k.extend_from_slice(d.to_string().as_bytes());
+        storage.set(&k, b"1");
+    }
+}
+
+fn emitter_instantiate<C: Cust, Q: CustQ>(deps: DepsMut<Q>, env: Env, info: MessageInfo, prog: Prog) -> StdResult<Response<C>> {
+    record_callee(deps.storage, &env, &info, &prog);
+    run_prog::<C, Q>(deps, &prog)
+}
+fn emitter_execute<C: Cust, Q: CustQ>(deps: DepsMut<Q>, env: Env, info: MessageInfo, prog: Prog) -> StdResult<Response<C>> {
+    record_callee(deps.storage, &env, &info, &prog);
+    if prog.via_reply {
+        // run the program from the REPLY entry point: store it, trigger a reply with a no-op call to self
+        let mut p = prog.clone();
+        p.via_reply = false;
+        deps.storage.set(b"reply_prog", &to_json_vec(&p)?);
+        let noop = WasmMsg::Execute { contract_addr: env.contract.address.to_string(), msg: to_json_binary(&Prog::default())?, funds: vec![] };
+        return Ok(Response::new().add_submessage(SubMsg { id: TRIGGER_ID, payload: Binary::default(), msg: CosmosMsg::Wasm(noop), gas_limit: None, reply_on: ReplyOn::Always }));
+    }
+    run_prog::<C, Q>(deps, &prog)
+}
+fn emitter_migrate<C: Cust, Q: CustQ>(deps: DepsMut<Q>, _e: Env, prog: Prog) -> StdResult<Response<C>> {
+    run_prog::<C, Q>(deps, &prog)
+}
+fn emitter_sudo<C: Cust, Q: CustQ>(deps: DepsMut<Q>, _e: Env, prog: Prog) -> StdResult<Response<C>> {
+    run_prog::<C, Q>(deps, &prog)
+}
 fn emitter_reply<C: Cust, Q: CustQ>(deps: DepsMut<Q>, _e: Env, reply: Reply) -> StdResult<Response<C>> {
+    if reply.id == TRIGGER_ID {
+        let raw = deps.storage.get(b"reply_prog").ok_or_else(|| StdError::generic_err("c17: no stored program"))?;
+        let prog: Prog = cosmwasm_std::from_json(raw)?;
+        return run_prog::<C, Q>(deps, &prog);
+    }
     let r = match &reply.result {
         SubMsgResult::Ok(resp) => Ok(parse_data(&resp.data)),
         SubMsgResult::Err(_) => Err(()),
@@ -595,24 +771,37 @@ fn emitter_query<Q: CustQ>(_d: Deps<Q>, _e: Env, _m: Empty) -> StdResult<Binary>
 }
 
 fn custom_contract() -> Box<dyn Contract<CMsg, CQuery>> {
-    Box::new(ContractWrapper::new(emitter_execute::<CMsg, CQuery>, emitter_instantiate::<CMsg, CQuery>, emitter_query::<CQuery>).with_reply(emitter_reply::<CMsg, CQuery>))
+    Box::new(
+        ContractWrapper::new(emitter_execute::<CMsg, CQuery>, emitter_instantiate::<CMsg, CQuery>, emitter_query::<CQuery>)
+            .with_reply(emitter_reply::<CMsg, CQuery>)
+            .with_migrate(emitter_migrate::<CMsg, CQuery>)
+            .with_sudo(emitter_sudo::<CMsg, CQuery>),
+    )
 }
 fn empty_contract() -> Box<dyn Contract<CMsg, CQuery>> {
     Box::new(
         ContractWrapper::new_with_empty(emitter_execute::<Empty, Empty>, emitter_instantiate::<Empty, Empty>, emitter_query::<Empty>)
-            .with_reply_empty(emitter_reply::<Empty, Empty>),
+            .with_reply_empty(emitter_reply::<Empty, Empty>)
+            .with_migrate_empty(emitter_migrate::<Empty, Empty>)
+            .with_sudo_empty(emitter_sudo::<Empty, Empty>),
     )
 }
 
 // ---------------------------------------------------------------------------------------------
 // cases
 // ---------------------------------------------------------------------------------------------
+fn default_entry() -> String {
+    "Execute".into()
+}
 #[derive(Clone, Debug, Serialize, Deserialize)]
 pub struct Input {
-    /// behaviour per slot (index into BEH)
+    /// behaviour per slot (index into BEH; Keeper only in the bank slot)
     pub cfg: [u8; 8],
     /// "Top" | "TopQuery" | "SubCustom" | "SubEmpty"
     pub origin: String,
+    /// for the contract origins: the entry point that returns the probes (one of ENTRIES)
+    #[serde(default = "default_entry")]
+    pub entry: String,
     pub pre: bool,
     pub height: u64,
     pub probes: Vec<Probe>,
@@ -636,8 +825,8 @@ pub struct Obs {
 struct Ran {
     obs: Obs,
     sender: u64,
-    /// expected payload digests per probe
-    payloads: Vec<u64>,
+    /// per probe: the Coq term of the probe with the EXPECTED payload digests (what the harness sent)
+    probes_coq: Vec<String>,
 }
 
 fn parse_seen(v: &[u8]) -> Res {
@@ -653,36 +842,101 @@ fn parse_seen(v: &[u8]) -> Res {
     }
 }
 
+struct World {
+    app: TheApp,
+    user: Addr,
+    admin: Addr,
+    code: u64,
+    emitter: Addr,
+    callee: Addr,
+}
+/// the same set-up for the App under test and for its twin (address prediction)
+fn world(ctl: &Rc<Ctl>, inp: &Input) -> World {
+    let mut app = build_app(ctl, inp.height);
+    let user = app.api().addr_make("c17-user");
+    let admin = app.api().addr_make("c17-admin");
+    let code = app.store_code(if inp.origin == "SubEmpty" { empty_contract() } else { custom_contract() });
+    let emitter = app.instantiate_contract(code, user.clone(), &Prog::default(), &[], "emitter", Some(admin.to_string())).expect("instantiate emitter");
+    let callee = app.instantiate_contract(code, user.clone(), &Prog::default(), &[], "callee", None).expect("instantiate callee");
+    if inp.cfg[1] == KEEPER {
+        let rich = vec![coin(1000, "c17x"), coin(1000, "c17y")];
+        app.init_modules(|router, _, storage| {
+            router.bank.keeper.init_balance(storage, &user, rich.clone()).unwrap();
+            router.bank.keeper.init_balance(storage, &emitter, rich.clone()).unwrap();
+        });
+    }
+    World { app, user, admin, code, emitter, callee }
+}
+
 fn run_case(inp: &Input) -> Ran {
     let ctl = Rc::new(Ctl { cfg: inp.cfg, log: RefCell::new(vec![]) });
-    let mut app = build_app(&ctl, inp.height);
-    let user = app.api().addr_make("c17-user");
-    let empty_typed = inp.origin == "SubEmpty";
-    let code = app.store_code(if empty_typed { empty_contract() } else { custom_contract() });
-    let emitter = app.instantiate_contract(code, user.clone(), &Empty {}, &[], "emitter", None).expect("instantiate emitter");
+    CUR.with(|c| *c.borrow_mut() = Some(ctl.clone()));
+    let mut w = world(&ctl, inp);
     assert!(ctl.log.borrow().is_empty(), "setup must not touch a recording module");
+    let empty_typed = inp.origin == "SubEmpty";
+    let is_sub = inp.origin.starts_with("Sub");
+    let from_instantiate = is_sub && inp.entry == "Instantiate";
 
-    // expected payload digests (what the harness sent)
-    let payloads: Vec<u64> = inp
-        .probes
-        .iter()
-        .map(|p| match (p.is_msg, empty_typed) {
-            (true, false) => make_msg::<CMsg>(p.kind, p.n).1,
-            (true, true) => make_msg::<Empty>(p.kind, p.n).1,
-            (false, false) => make_query::<CQuery>(p.kind, p.n).1,
-            (false, true) => make_query::<Empty>(p.kind, p.n).1,
-        })
-        .collect();
+    // addresses of the contracts that will be instantiated during the call, predicted on a twin App
+    let n_new = (from_instantiate as usize) + inp.probes.iter().filter(|p| p.funded.as_ref().map(|f| f.inst).unwrap_or(false)).count();
+    let mut predicted: Vec<Addr> = vec![];
+    if n_new > 0 {
+        CUR.with(|c| *c.borrow_mut() = None);
+        let tctl = Rc::new(Ctl { cfg: [REC_OK; 8], log: RefCell::new(vec![]) });
+        let mut t = world(&tctl, &Input { cfg: [REC_OK; 8], ..inp.clone() });
+        for k in 0..n_new {
+            predicted.push(t.app.instantiate_contract(t.code, t.user.clone(), &Prog::default(), &[], format!("twin-{}", k), None).expect("twin instantiate"));
+        }
+        CUR.with(|c| *c.borrow_mut() = Some(ctl.clone()));
+    }
+    let mut next_new = predicted.iter();
+    // the contract that emits the probes (the one being instantiated for the instantiate entry point)
+    let emitter = if from_instantiate { next_new.next().unwrap().clone() } else { w.emitter.clone() };
+
+    // resolve the probes: callee addresses, expected digests
+    let mut steps = vec![];
+    let mut probes_coq = vec![];
+    for (i, p) in inp.probes.iter().enumerate() {
+        let mut st = Step { idx: i as u64, probe: p.clone(), callee: w.callee.to_string(), code_id: w.code };
+        let term = match (&p.funded, p.is_msg) {
+            (Some(f), _) => {
+                if f.inst {
+                    st.callee = next_new.next().unwrap().to_string();
+                }
+                format!(
+                    "PFunded {} {} {} {} {}",
+                    coq_bool(f.inst),
+                    FCLASS[f.fclass as usize],
+                    send_digest(&st.callee, f.fclass),
+                    callee_digest(p.n, &funds_of(f.fclass)),
+                    coq_bool(p.catch)
+                )
+            }
+            (None, true) => {
+                let d = if empty_typed { make_msg::<Empty>(p.kind, p.n).1 } else { make_msg::<CMsg>(p.kind, p.n).1 };
+                format!("PMsg M{} {} {}", MKINDS[p.kind], d, coq_bool(p.catch))
+            }
+            (None, false) => {
+                let d = if empty_typed { make_query::<Empty>(p.kind, p.n).1 } else { make_query::<CQuery>(p.kind, p.n).1 };
+                format!("PQuery Q{} {} {}", QKINDS[p.kind], d, coq_bool(p.catch))
+            }
+        };
+        steps.push(st);
+        probes_coq.push(term);
+    }
 
     let mut seen: Vec<(u64, Res)> = vec![];
+    let app = &mut w.app;
+    let user = w.user.clone();
+    let mut seen_store = emitter.clone();
     let (tx, sender) = match inp.origin.as_str() {
         "Top" => {
             let mut msgs: Vec<CosmosMsg<CMsg>> = vec![];
             if inp.pre {
-                msgs.push(CosmosMsg::Wasm(WasmMsg::Execute { contract_addr: emitter.to_string(), msg: to_json_binary(&Prog { pre: true, probes: vec![] }).unwrap(), funds: vec![] }));
+                msgs.push(CosmosMsg::Wasm(WasmMsg::Execute { contract_addr: emitter.to_string(), msg: to_json_binary(&Prog { pre: true, ..Prog::default() }).unwrap(), funds: vec![] }));
             }
-            for p in &inp.probes {
-                msgs.push(make_msg::<CMsg>(p.kind, p.n).0);
+            for st in &steps {
+                msgs.push(step_msg::<CMsg>(st));
             }
             let skip = if inp.pre { 1 } else { 0 };
             let r = catch(|| app.execute_multi(user.clone(), msgs));
@@ -714,20 +968,32 @@ fn run_case(inp: &Input) -> Ran {
             (tx, 0)
         }
         _ => {
-            let prog = Prog { pre: inp.pre, probes: inp.probes.iter().cloned().enumerate().map(|(i, p)| (i as u64, p)).collect() };
-            let r = catch(|| app.execute_contract(user.clone(), emitter.clone(), &prog, &[]));
+            let prog = Prog { pre: inp.pre, steps: steps.clone(), ran: None, via_reply: inp.entry == "Reply" };
+            let admin = w.admin.clone();
+            let code = w.code;
+            let r: Result<AnyResult<()>, String> = match inp.entry.as_str() {
+                "Instantiate" => catch(|| {
+                    app.instantiate_contract(code, user.clone(), &prog, &[], "emitter-under-test", Some(admin.to_string())).map(|a| {
+                        seen_store = a;
+                    })
+                }),
+                "Migrate" => catch(|| app.migrate_contract(admin.clone(), emitter.clone(), &prog, code).map(|_| ())),
+                "Sudo" => catch(|| app.wasm_sudo(emitter.clone(), &prog).map(|_| ())),
+                _ => catch(|| app.execute_contract(user.clone(), emitter.clone(), &prog, &[]).map(|_| ())),
+            };
             let tx = match r {
-                Ok(Ok(_)) => Res::Ok(None),
+                Ok(Ok(())) => Res::Ok(None),
                 Ok(Err(_)) => Res::Err,
                 Err(_) => Res::Panic,
             };
+            // the sender every module must record: the EMITTING contract
             (tx, digest(emitter.as_str()))
         }
     };
     // what survived
-    let dump = app.dump_wasm_raw(&emitter);
+    let dump = if from_instantiate && tx != Res::Ok(None) { vec![] } else { app.dump_wasm_raw(&seen_store) };
     let pre = dump.iter().any(|(k, _)| k.as_slice() == b"pre");
-    if inp.origin.starts_with("Sub") {
+    if is_sub {
         for (k, v) in &dump {
             if let Some(i) = std::str::from_utf8(k).ok().and_then(|s| s.strip_prefix("seen/")).and_then(|s| s.parse::<u64>().ok()) {
                 seen.push((i, parse_seen(v)));
@@ -736,18 +1002,23 @@ fn run_case(inp: &Input) -> Ran {
         seen.sort_by_key(|(i, _)| *i);
     }
     let mut keys = vec![];
-    for (k, _) in app.storage().range(Some(MARKER_PREFIX), None, Order::Ascending) {
-        if !k.starts_with(MARKER_PREFIX) {
-            break;
+    let bad = u64::MAX >> 16;
+    for (k, _) in app.storage().range(None, None, Order::Ascending) {
+        if k.starts_with(MARKER_PREFIX) {
+            let s = String::from_utf8_lossy(&k[MARKER_PREFIX.len()..]).to_string();
+            let mut it = s.split('/');
+            let a = it.next().and_then(|x| x.parse::<u64>().ok()).unwrap_or(bad);
+            let b = it.next().and_then(|x| x.parse::<u64>().ok()).unwrap_or(bad);
+            keys.push((a, b));
+        } else if let Some(pos) = k.windows(RAN_PREFIX.len()).position(|w| w == RAN_PREFIX) {
+            // a callee's own marker, inside its contract storage
+            let d = std::str::from_utf8(&k[pos + RAN_PREFIX.len()..]).ok().and_then(|x| x.parse::<u64>().ok()).unwrap_or(bad);
+            keys.push((CALLEE_SLOT, d));
         }
-        let s = String::from_utf8_lossy(&k[MARKER_PREFIX.len()..]).to_string();
-        let mut it = s.split('/');
-        let a = it.next().and_then(|x| x.parse::<u64>().ok()).unwrap_or(u64::MAX >> 16);
-        let b = it.next().and_then(|x| x.parse::<u64>().ok()).unwrap_or(u64::MAX >> 16);
-        keys.push((a, b));
     }
     let log = ctl.log.borrow().clone();
-    Ran { obs: Obs { log, tx, seen, pre, keys }, sender, payloads }
+    CUR.with(|c| *c.borrow_mut() = None);
+    Ran { obs: Obs { log, tx, seen, pre, keys }, sender, probes_coq }
 }
 
 fn coq_res(r: &Res) -> String {
@@ -761,22 +1032,16 @@ fn coq_res(r: &Res) -> String {
 
 fn emit(out: &mut Out, inp: &Input, family: &str) {
     let ran = run_case(inp);
-    let probes = coq_list(&inp.probes.iter().zip(ran.payloads.iter()).collect::<Vec<_>>(), |(p, d)| {
-        if p.is_msg {
-            format!("PMsg M{} {} {}", MKINDS[p.kind], d, coq_bool(p.catch))
-        } else {
-            format!("PQuery Q{} {} {}", QKINDS[p.kind], d, coq_bool(p.catch))
-        }
-    });
     let o = &ran.obs;
+    let origin = if inp.origin.starts_with("Sub") { format!("({} E{})", inp.origin, inp.entry) } else { inp.origin.clone() };
     let coq = format!(
-        "c17 (mk_input {} {} {} {} {} {}) (mk_obs {} ({}) {} {} {})",
+        "c17 (mk_input {} {} {} {} {} [{}]) (mk_obs {} ({}) {} {} {})",
         coq_list(&inp.cfg, |b| BEH[*b as usize].to_string()),
-        inp.origin,
+        origin,
         coq_bool(inp.pre),
         ran.sender,
         inp.height,
-        probes,
+        ran.probes_coq.join("; "),
         coq_list(&o.log, |e| format!("mk_entry {} {} {} {}", e.slot, e.sender, e.payload, e.height)),
         coq_res(&o.tx),
         coq_list(&o.seen, |(i, r)| format!("({}, {})", i, coq_res(r))),
@@ -785,24 +1050,35 @@ fn emit(out: &mut Out, inp: &Input, family: &str) {
     );
     out.stat(&format!("family_{}", family), 1);
     out.stat(&format!("origin_{}", inp.origin), 1);
+    if inp.origin.starts_with("Sub") {
+        out.stat(&format!("entry_{}", inp.entry), 1);
+    }
     out.stat(&format!("position_{}", if inp.pre { "after_earlier_write" } else { "first" }), 1);
     out.stat(&format!("probes_{:02}", inp.probes.len().min(10)), 1);
+    out.stat(&format!("bank_{}", BEH[inp.cfg[1] as usize]), 1);
     for p in &inp.probes {
-        let (name, slot) = if p.is_msg { (format!("msg_{}", MKINDS[p.kind]), MSLOT[p.kind]) } else { (format!("query_{}", QKINDS[p.kind]), QSLOT[p.kind]) };
+        let (name, slot) = match (&p.funded, p.is_msg) {
+            (Some(f), _) => (format!("funded_{}_{}", if f.inst { "instantiate" } else { "execute" }, FCLASS[f.fclass as usize]), 1),
+            (None, true) => (format!("msg_{}", MKINDS[p.kind]), MSLOT[p.kind]),
+            (None, false) => (format!("query_{}", QKINDS[p.kind]), QSLOT[p.kind]),
+        };
         out.stat(&name, 1);
         out.stat(&format!("module_{}", BEH[inp.cfg[slot] as usize]), 1);
         out.stat(if p.catch { "caught" } else { "uncaught" }, 1);
     }
-    out.stat(match o.tx {
-        Res::Ok(_) => "tx_ok",
-        Res::Err => "tx_err",
-        Res::Panic => "tx_panic",
-    }, 1);
+    out.stat(
+        match o.tx {
+            Res::Ok(_) => "tx_ok",
+            Res::Err => "tx_err",
+            Res::Panic => "tx_panic",
+        },
+        1,
+    );
     out.stat("log_entries", o.log.len() as u64);
     let nontrivial = !inp.probes.is_empty();
     out.push(Case {
         key: format!("{:?}", inp),
-        json: serde_json::json!({"input": inp, "sender_digest": ran.sender, "payload_digests": ran.payloads, "observed": ran.obs}),
+        json: serde_json::json!({"input": inp, "sender_digest": ran.sender, "probes": ran.probes_coq, "observed": ran.obs}),
         coq,
         nontrivial,
     });
@@ -810,6 +1086,15 @@ fn emit(out: &mut Out, inp: &Input, family: &str) {
 
 fn all_rec_ok() -> [u8; 8] {
     [REC_OK; 8]
+}
+fn msg(kind: usize, n: u64, catch: bool) -> Probe {
+    Probe { is_msg: true, kind, n, catch, funded: None }
+}
+fn query(kind: usize, n: u64, catch: bool) -> Probe {
+    Probe { is_msg: false, kind, n, catch, funded: None }
+}
+fn funded(inst: bool, fclass: u8, n: u64, catch: bool) -> Probe {
+    Probe { is_msg: true, kind: 0, n, catch, funded: Some(Funded { inst, fclass }) }
 }
 
 pub fn run(args: &Args) {
@@ -828,27 +1113,23 @@ pub fn run(args: &Args) {
         height += 1 + rng.below(7);
         height
     };
+    let exec = || "Execute".to_string();
 
     // 1. adversarial fixed cases: the known finding first (F11), then late failures after several writes
     for origin in ["TopQuery", "SubCustom", "SubEmpty"] {
         let n = 1 + rng.below(1 << 20);
-        emit(&mut out, &Input { cfg: all_rec_ok(), origin: origin.into(), pre: origin != "TopQuery", height: next_height(&mut rng), probes: vec![Probe { is_msg: false, kind: 4, n, catch: false }] }, "fixed");
+        emit(&mut out, &Input { cfg: all_rec_ok(), origin: origin.into(), entry: exec(), pre: origin != "TopQuery", height: next_height(&mut rng), probes: vec![query(4, n, false)] }, "fixed");
     }
     for origin in ["Top", "SubCustom", "SubEmpty"] {
         let mut cfg = all_rec_ok();
         cfg[5] = REC_ERR;
-        let probes = vec![
-            Probe { is_msg: true, kind: 1, n: 11, catch: false },
-            Probe { is_msg: true, kind: 6, n: 12, catch: false },
-            Probe { is_msg: true, kind: 8, n: 13, catch: false },
-            Probe { is_msg: true, kind: 5, n: 14, catch: false },
-            Probe { is_msg: true, kind: 3, n: 15, catch: false },
-        ];
-        emit(&mut out, &Input { cfg, origin: origin.into(), pre: true, height: next_height(&mut rng), probes }, "fixed");
+        let probes = vec![msg(1, 11, false), msg(6, 12, false), msg(8, 13, false), msg(5, 14, false), msg(3, 15, false)];
+        emit(&mut out, &Input { cfg, origin: origin.into(), entry: exec(), pre: true, height: next_height(&mut rng), probes }, "fixed");
     }
 
-    // 2. the exhaustive single-probe family: kind x origin x behaviour of the configured module x position x catch;
-    //    every OTHER slot holds a recording module that accepts (a stray call would show up in the log)
+    // 2. the exhaustive single-probe family from top level and from the execute entry point: kind x origin x
+    //    behaviour of the configured module x position x catch; every OTHER slot holds a recording module that
+    //    accepts (a stray call would show up in the log)
     for origin in ["Top", "SubCustom", "SubEmpty"] {
         for kind in 0..9 {
             for beh in 0..4u8 {
@@ -860,7 +1141,7 @@ pub fn run(args: &Args) {
                         let mut cfg = all_rec_ok();
                         cfg[MSLOT[kind]] = beh;
                         let n = 1 + rng.below(1 << 20);
-                        emit(&mut out, &Input { cfg, origin: origin.into(), pre, height: next_height(&mut rng), probes: vec![Probe { is_msg: true, kind, n, catch }] }, "exhaustive_msg");
+                        emit(&mut out, &Input { cfg, origin: origin.into(), entry: exec(), pre, height: next_height(&mut rng), probes: vec![msg(kind, n, catch)] }, "exhaustive_msg");
                     }
                 }
             }
@@ -880,15 +1161,74 @@ pub fn run(args: &Args) {
                         let mut cfg = all_rec_ok();
                         cfg[QSLOT[kind]] = beh;
                         let n = 1 + rng.below(1 << 20);
-                        emit(&mut out, &Input { cfg, origin: origin.into(), pre, height: next_height(&mut rng), probes: vec![Probe { is_msg: false, kind, n, catch }] }, "exhaustive_query");
+                        emit(&mut out, &Input { cfg, origin: origin.into(), entry: exec(), pre, height: next_height(&mut rng), probes: vec![query(kind, n, catch)] }, "exhaustive_query");
                     }
                 }
             }
         }
     }
 
-    // 3. generated programs: random configuration of all eight slots, several probes in one transaction
-    let n_random = if args.thorough { 3000 } else { 250 } * args.scale as usize;
+    // 3. the other entry points of both contract flavours: every message kind returned from instantiate,
+    //    migrate, sudo and reply (recording module ok / err, with and without reply), every query kind made
+    //    inline there; the module must record the EMITTING contract as the sender
+    for origin in ["SubCustom", "SubEmpty"] {
+        for entry in ["Instantiate", "Migrate", "Sudo", "Reply"] {
+            for kind in 0..9 {
+                for beh in [REC_OK, REC_ERR] {
+                    for catch in [false, true] {
+                        let mut cfg = all_rec_ok();
+                        cfg[MSLOT[kind]] = beh;
+                        let n = 1 + rng.below(1 << 20);
+                        emit(&mut out, &Input { cfg, origin: origin.into(), entry: entry.into(), pre: true, height: next_height(&mut rng), probes: vec![msg(kind, n, catch)] }, "entry_points_msg");
+                    }
+                }
+            }
+            for kind in 0..8 {
+                if origin == "SubEmpty" && kind == 2 {
+                    continue;
+                }
+                let beh = if kind % 2 == 0 { REC_OK } else { REC_ERR };
+                let mut cfg = all_rec_ok();
+                cfg[QSLOT[kind]] = beh;
+                let n = 1 + rng.below(1 << 20);
+                emit(&mut out, &Input { cfg, origin: origin.into(), entry: entry.into(), pre: true, height: next_height(&mut rng), probes: vec![query(kind, n, kind % 3 == 0)] }, "entry_points_query");
+            }
+        }
+    }
+
+    // 4. wasm messages with funds: a user / a contract (every entry point, both flavours) executes / instantiates
+    //    a callee with funds from {[], [5 x], [0 x], [0 x; 0 y], [0 x; 3 y]}; bank slot = recording bank ok / err, or
+    //    the crate's BankKeeper (payer funded by the harness; not for a payer that is itself being instantiated)
+    let mut origins: Vec<(&str, &str)> = vec![("Top", "Execute")];
+    for o in ["SubCustom", "SubEmpty"] {
+        for e in ENTRIES {
+            origins.push((o, e));
+        }
+    }
+    for (origin, entry) in &origins {
+        for inst in [false, true] {
+            for fclass in 0..5u8 {
+                for bank in [REC_OK, REC_ERR, KEEPER] {
+                    if bank == KEEPER && *entry == "Instantiate" {
+                        continue;
+                    }
+                    for catch in [false, true] {
+                        if catch && (*origin == "Top" || *entry != "Execute") {
+                            continue;
+                        }
+                        let mut cfg = all_rec_ok();
+                        cfg[1] = bank;
+                        let n = 1 + rng.below(1 << 20);
+                        emit(&mut out, &Input { cfg, origin: origin.to_string(), entry: entry.to_string(), pre: true, height: next_height(&mut rng), probes: vec![funded(inst, fclass, n, catch)] }, "funds");
+                    }
+                }
+            }
+        }
+    }
+
+    // 5. generated programs: random configuration of all eight slots, several probes in one transaction, from
+    //    a random origin / entry point, with funded wasm messages mixed in
+    let n_random = if args.thorough { 3000 } else { 300 } * args.scale as usize;
     for _ in 0..n_random {
         let mut r = rng.fork();
         let mut cfg = [0u8; 8];
@@ -897,33 +1237,46 @@ pub fn run(args: &Args) {
             *c = if r.chance(3, 5) { REC_OK } else { r.below(4) as u8 };
         }
         let origin = *r.pick(&["Top", "SubCustom", "SubCustom", "SubEmpty", "SubEmpty"]);
+        let entry = if origin == "Top" { "Execute" } else { *r.pick(&ENTRIES) };
+        let keeper = entry != "Instantiate" && r.chance(1, 6);
+        if keeper {
+            cfg[1] = KEEPER;
+        }
         let len = 1 + r.below(6) as usize;
         let mut queries = vec![];
         let mut msgs = vec![];
+        let mut have_inst = false;
         for _ in 0..len {
             let is_msg = origin == "Top" || r.chance(2, 3);
-            if is_msg {
+            if is_msg && r.chance(1, 4) {
+                let inst = !have_inst && r.chance(1, 3);
+                have_inst |= inst;
+                msgs.push(funded(inst, r.below(5) as u8, 1 + r.below(1 << 20), origin != "Top" && r.chance(1, 2)));
+            } else if is_msg {
                 let mut kind = r.below(9) as usize;
                 if origin == "SubEmpty" && kind == 2 && r.chance(9, 10) {
                     kind = 6; // keep the un-liftable custom message rare
                 }
-                msgs.push(Probe { is_msg: true, kind, n: 1 + r.below(1 << 20), catch: origin != "Top" && r.chance(1, 2) });
+                if keeper && kind == 1 {
+                    kind = 5; // plain bank probes are not sent to the keeper
+                }
+                msgs.push(msg(kind, 1 + r.below(1 << 20), origin != "Top" && r.chance(1, 2)));
             } else {
                 let mut kind = r.below(8) as usize;
                 if kind == 4 && r.chance(4, 5) {
                     kind = 5; // Distribution queries (known finding) stay rare among the generated programs
                 }
-                if origin == "SubEmpty" && kind == 2 {
-                    kind = 1;
+                if (origin == "SubEmpty" && kind == 2) || (keeper && kind == 1) {
+                    kind = 3;
                 }
-                queries.push(Probe { is_msg: false, kind, n: 1 + r.below(1 << 20), catch: r.chance(1, 2) });
+                queries.push(query(kind, 1 + r.below(1 << 20), r.chance(1, 2)));
             }
         }
         queries.extend(msgs);
-        emit(&mut out, &Input { cfg, origin: origin.into(), pre: r.chance(1, 2), height: next_height(&mut rng), probes: queries }, "generated");
+        emit(&mut out, &Input { cfg, origin: origin.into(), entry: entry.into(), pre: r.chance(1, 2), height: next_height(&mut rng), probes: queries }, "generated");
     }
     out.finish(
-        120,
-        "cases = 3 known-finding witnesses + 3 late-failure programs + the exhaustive single-probe family (9 message kinds x {top-level, custom-typed contract, Empty-typed contract lifted by new_with_empty} x 4 module behaviours x {first, after an earlier write} x {reply, no reply}; 8 query kinds x {top-level querier, query from inside either contract} x 4 behaviours x position x {error caught, not caught}) + generated multi-probe programs over random configurations of all eight slots; distinct by SHA-256 of the input; non-trivial = at least one probe",
+        150,
+        "cases = 3 known-finding witnesses + 3 late-failure programs + the exhaustive single-probe family (9 message kinds x {top-level, custom-typed contract, Empty-typed contract lifted by new_with_empty} x 4 module behaviours x {first, after an earlier write} x {reply, no reply}; 8 query kinds x {top-level querier, query from inside either contract} x 4 behaviours x position x {error caught, not caught}) + every message / query kind returned from the instantiate, migrate, sudo and reply entry points of both contract flavours (drivers instantiate_contract, migrate_contract with a separate admin, wasm_sudo, a reply-level emitter) + funded WasmMsg::Execute / Instantiate (funds [], [5x], [0x], [0x;0y], [0x;3y]) from a user and from every entry point of both flavours against a recording bank (ok / err) and the crate's BankKeeper + generated multi-probe programs over random configurations, origins and entry points; distinct by SHA-256 of the input; non-trivial = at least one probe",
     );
 }
